@@ -920,6 +920,19 @@ namespace symv {
       out << "Definition " << name << " (" << params(ps) << " : R) : R :=\n" << l << "  " << p.expr(roots[0]) << ".\n\n";
       ++ndefs;
     }
+    // when set, def_paths prints `if c then T else T` as T (identical sub-trees up to comments); default: every test is printed
+    bool merge_equal_branches = false;
+    static std::string strip_comments(const std::string& s) {
+      std::string r;
+      for (size_t i = 0; i < s.size();) {
+        if (s.compare(i, 2, "(*") == 0) {
+          const size_t e = s.find("*)", i + 2);
+          if (e == std::string::npos) break;
+          i = e + 2;
+        } else r += s[i++];
+      }
+      return r;
+    }
     // decision tree: leaves in DFS order (true branch first)
     void tree(std::ostringstream& o, Printer& p, const std::vector<Leaf>& ls, size_t lo, size_t hi, size_t depth, int ind) {
       std::string pad(ind, ' ');
@@ -938,6 +951,18 @@ namespace symv {
       size_t mid = lo;
       while (mid < hi && ls[mid].conds.size() > depth && ls[mid].conds[depth].value) ++mid;
       const Cond& c = ls[lo].conds.at(depth);
+      if (merge_equal_branches && mid != hi) {
+        // optional (off by default): `if c then T else T` is printed as T (the same function, a smaller term for Coq)
+        std::ostringstream ot, oe;
+        tree(ot, p, ls, lo, mid, depth + 1, ind + 2);
+        tree(oe, p, ls, mid, hi, depth + 1, ind + 2);
+        if (strip_comments(ot.str()) == strip_comments(oe.str())) {
+          tree(o, p, ls, lo, mid, depth + 1, ind);
+          return;
+        }
+        o << pad << "if " << cond_str(p, c) << " then\n" << ot.str() << "\n" << pad << "else\n" << oe.str();
+        return;
+      }
       o << pad << "if " << cond_str(p, c) << " then\n";
       tree(o, p, ls, lo, mid, depth + 1, ind + 2);
       o << "\n" << pad << "else\n";
